@@ -75,3 +75,29 @@ package sourceaddrs
 //@   ensures C11.registry.fails: isLocal(b) && isRegFinal(a) ==> ((err != nil) == joinFails(asRegFinal(a).src.subPath, asLocal(b).relPath))
 //@   ensures C11.noresult: err != nil ==> r == nil
 //@   ensures C06,C11.inv: err == nil ==> r != nil && finalInv(r)
+
+//@ func (RegistrySource).FinalSourceAddr -> (r)
+//@   pure
+//@   sweep
+//@   requires pre.inv: normSub(s.subPath) && normSub(realSource.subPath)
+//@   ensures C11,C08.final.pkg: r.pkg == realSource.pkg
+//@   ensures C11,C08.final.sub: r.subPath == normJoin(realSource.subPath, s.subPath)
+//@   ensures C11,C06.final.inv: normSub(r.subPath)
+
+//@ func (RegistrySourceFinal).FinalSourceAddr -> (r)
+//@   pure
+//@   sweep
+//@   requires pre.inv: normSub(s.src.subPath) && normSub(realSource.subPath)
+//@   ensures C11,C08.final.pkg: r.pkg == realSource.pkg
+//@   ensures C11,C08.final.sub: r.subPath == normJoin(realSource.subPath, s.src.subPath)
+//@   ensures C11,C06.final.inv: normSub(r.subPath)
+
+// Composition of relative resolutions (property C11): resolving b and then c against a package
+// sub-path gives the same sub-path, and fails in the same cases, as resolving the combined local
+// address. Stated over the result expressions of the contracts above; proved from the path.Join laws.
+//@ theorem C11.compose.subpath (sa String, rb String, rc String):
+//@     normSub(sa) && localOK(rb) && localOK(rc) && !joinFails(sa, rb) && !joinFails(normJoin(sa, rb), rc)
+//@     ==> !joinFails(sa, localFix(Join(rb, rc))) && normJoin(normJoin(sa, rb), rc) == normJoin(sa, localFix(Join(rb, rc)))
+//@ theorem C11.compose.local (ra String, rb String, rc String):
+//@     localOK(ra) && localOK(rb) && localOK(rc)
+//@     ==> localFix(Join(localFix(Join(ra, rb)), rc)) == localFix(Join(ra, localFix(Join(rb, rc))))
